@@ -29,7 +29,8 @@ class Theme:
     def config(self) -> str:
         """Get contents of a config file for this theme."""
         config = "[styles]\n" + "\n".join(
-            f"{name} = {style}" for name, style in sorted(self.styles.items())
+            f"{name} = {str(style).replace('%', '%%')}"
+            for name, style in sorted(self.styles.items())
         )
         return config
 
